@@ -79,7 +79,9 @@ def cases(draw, ctx):
     for u in units:
         c = t.cls(u["pool"])
         may_yield = u["kind"] == "ult" and c != "spmc"
-        may_block = u["kind"] == "ult" and c in ("mpmc", "mpsc")
+        # a unit blocked in a pool shared by several streams is not waited for by any of
+        # their joins (the library stops counting blocked units of shared pools)
+        may_block = u["kind"] == "ult" and c in ("mpmc", "mpsc") and len(t.consumers(u["pool"])) == 1
         for _ in range(draw(st.integers(0, 3))):
             ch = ["work"]
             if may_yield:
@@ -95,6 +97,14 @@ def cases(draw, ctx):
                 u["ops"] += ["lock 0", draw(st.sampled_from(["yield", "work 1"])), "unlock 0"]
         if may_block and nev and draw(st.integers(0, 2)) > 0:
             e = draw(st.integers(0, nev - 1))
+            if draw(st.integers(0, 3)) == 0:
+                # ask for a migration and block while it is pending: the blocked-unit
+                # count has to follow the unit.  Targets: pools of the primary stream
+                # (never joined before ABT_finalize) that accept foreign producers.
+                tg = [p for p in t.xs[0]["pools"] if t.cls(p) in ("mpmc", "mpsc") and p != u["pool"]
+                      and t.consumers(p) == [0]]
+                if tg:
+                    u["ops"].append("migpool -1 %d" % draw(st.sampled_from(tg)))
             u["ops"].append("evwait %d" % e)
             waiters[e].append(u["idx"])
             if draw(st.booleans()):
@@ -132,6 +142,9 @@ def cases(draw, ctx):
             joins.append("%s %d" % (op, xi))
             if draw(st.booleans()):
                 joins.append("poolcheck")
+    if ext_joins or any(j.startswith("xsfree") for j in joins):
+        # a concurrent ABT_xstream_free destroys the pools being sampled
+        joins = [j for j in joins if j != "poolcheck"]
     lines = [draw(sched_line(ctx, extra=" tick=10000 drain=0"))] + t.lines()
     for e in range(nev):
         lines.append("eventual %d nbytes=%d" % (e, draw(st.sampled_from([0, 8]))))
